@@ -79,6 +79,8 @@ Next ==
      /\ LET ev == T[l] IN
         CASE ev.o = "init" -> StepInit(ev)
           [] ev.o = "end" -> UNCHANGED <<A, C, capb, fails, cnt, drift, exec>>
+          [] ev.o = "crash" -> /\ fails' = AddFails({[p |-> "CRASH", w |-> ev.stage, l |-> l, x |-> exec, e |-> "crash", d |-> ""]})
+                               /\ UNCHANGED <<A, C, capb, cnt, drift, exec>>
           [] OTHER -> StepOp(ev)
   \/ /\ l = Len(T) + 1 /\ l' = l + 1
      /\ PrintT(<<"RESULT", ToJson([n |-> Len(T), fails |-> fails, cnt |-> cnt, drift |-> drift])>>)
